@@ -22,7 +22,7 @@ from harness.dbshim import CTL, Crash, Worker, install
 
 RULE = ("random op sequences (12-40 ops, 2-3 workers, queue max_attempts 1-3) generated adaptively against the real queue: "
         "push / transactional push (own max_attempts) / undeserialisable rows, split and atomic polls, ack / reschedule / "
-        "extend by the holder and by stale workers, expire / mature, move_to_dlq / sweep / replay_dlq, process_one with a "
+        "extend by the holder, by stale workers (lapsed lock, old Message object) and with hand-made Messages, expire / mature, move_to_dlq / sweep / replay_dlq, process_one with a "
         "scripted handler, crash at the k-th commit inside an op; every sequence ends with a drain. A case is distinct by its "
         "(max_attempts, op list) and non-trivial when it contains a split poll, a stale release, a DLQ move or a crash")
 ASSUMPTIONS = [
@@ -30,6 +30,9 @@ ASSUMPTIONS = [
     "the run does not straddle midnight UTC (ORDER BY deliver_at compares two timestamp formats as text)",
     "lock lapse / delivery delay are explicit operations: the harness rewrites locked_until / deliver_at; real-time lapse is not exercised",
     "workers are scheduled at statement granularity by the harness (one runs at a time); SQLite serialises writers",
+    "reschedule / extend_lock are part of the property only when called with a Message handed out by poll_one (it carries the "
+    "claim token); calls with a hand-made Message are exercised for the correspondence (model ops rresched / rextend) but a "
+    "held row claimed after such a call is tagged, not reported",
     "a crash is 'the first k commits of the operation are durable, all Python objects are gone' (commit() raises a BaseException)",
 ]
 TRUSTED_BASE = [
@@ -243,6 +246,10 @@ class Bed:
                 # the first violation on a row names the cause; later ones on the same row are its consequences
                 cause = self.tainted.get(rid) or ("stale-extend" if l["revived"] else self.breaker.get(rid, "none"))
                 self.tainted[rid] = cause
+                if cause.startswith("raw"):
+                    # a hand-made Message without claim token is outside the poll -> release protocol the property is about
+                    self.tags.append("held-row-claimed-after-raw-message-call")
+                    continue
                 self.hit(f"worker {w} claimed row {rid} while worker {l['w']} holds it (lock not lapsed, not released); cause={cause}",
                          f"held-row-claimed:{cause}")
         self.leases.setdefault(rid, []).append({"w": w, "live": True, "revived": False})
@@ -256,8 +263,8 @@ class Bed:
         mine_live = any(l["w"] == w and l["live"] and not l["revived"] for l in ls)
         others_live = any(l["w"] != w and l["live"] for l in ls)
         if others_live and not mine_live:
-            self.breaker[rid] = f"stale-{kind}"
-            self.tags.append(f"stale-{kind}-under-live-holder")
+            self.breaker[rid] = kind if kind.startswith("raw") else f"stale-{kind}"
+            self.tags.append(f"{self.breaker[rid]}-under-live-holder")
         self.leases[rid] = [l for l in ls if l["w"] != w]
 
     # ---- the scripted handler of process_one ------------------------------------------------------
@@ -265,6 +272,7 @@ class Bed:
         sc = self.script
         rid = int(message.message_id)
         sc["rid"] = rid
+        sc["msg"] = message
         sc["tag"] = _tag_of(message.execution_id)
         sc["attempts"] = message.attempts
         present = self.admin.execute("SELECT COUNT(*) FROM queue_messages WHERE id = ?", (rid,)).fetchone()[0]
@@ -399,8 +407,9 @@ class Bed:
             return "ok"
         if k == "resched":
             w, rid = int(toks[1]), int(toks[2])
+            raw = (w, rid) not in self.msgs      # hand-made Message: no claim token, the call is unguarded
             self.workers[w].call(lambda: q.reschedule(self._msg(rid, w), HOUR if toks[3] == "1" else timedelta(0)))
-            self.on_release(w, rid, "reschedule")
+            self.on_release(w, rid, "raw-reschedule" if raw else "reschedule")
             return "ok"
         if k == "extend":
             w, rid = int(toks[1]), int(toks[2])
@@ -465,6 +474,12 @@ class Bed:
         self.ops.append(op)
         self.outs.append(out + "#" + self.state_line())
 
+    def _model_op(self, toks: list[str]) -> str:
+        """reschedule / extend_lock with a Message that did not come from poll_one is the model's raw (token-less) op"""
+        if toks[0] in ("resched", "extend") and (int(toks[1]), int(toks[2])) not in self.msgs:
+            return f"rresched:{toks[2]}:{toks[3]}" if toks[0] == "resched" else f"rextend:{toks[2]}"
+        return ":".join(toks)
+
     def step(self, op: str) -> None:
         """Execute one harness op (possibly several model ops), run the monitors."""
         toks = op.split(":")
@@ -473,6 +488,7 @@ class Bed:
             return
         if toks[0] == "crash":
             k, inner = int(toks[1]), toks[2:]
+            mop = f"crash:{k}:" + self._model_op(inner)
             CTL.arm_crash(k)
             try:
                 self._act(inner)
@@ -484,14 +500,15 @@ class Bed:
             self.restart()
             # a crashed ack may or may not have deleted the row: decide from the ledger
             self._account_ledger(op, acking=inner[0] == "ack")
-            self._record(op, "crashed")
+            self._record(mop, "crashed")
             self.check_conservation(op)
             return
+        mop = self._model_op(toks)
         out = self._act(toks)
         if toks[0] in ("dlq", "replay", "sweep"):
             self._after_call(self.producer)
         self._account_ledger(op, acking=toks[0] == "ack")
-        self._record(op, out)
+        self._record(mop, out)
         self.check_conservation(op)
 
     def _proc(self, w: int, fail: bool) -> None:
@@ -511,6 +528,7 @@ class Bed:
             self.check_conservation(f"proc:{w}")
             return
         rid = sc["rid"]
+        self.msgs[(w, rid)] = sc["msg"]     # the worker keeps the Message object its handler was given
         self.on_got(w, rid, sc["attempts"])
         self.ops.append(f"poll:{w}")
         self.outs.append(f"got:{rid}:{sc['tag']}:{sc['attempts']}#" + sc["state_in_handler"])
@@ -552,12 +570,17 @@ def gen_next(rng, bed: Bed, i: int, n: int) -> str:
         add(1.0, f"ack:{w}:{rid}")
         add(1.6, f"resched:{w}:{rid}:{1 if rng.random() < 0.3 else 0}")
         add(0.8, f"extend:{w}:{rid}")
-    if ids and free_w:   # releases by a worker that may never have held the row
+    for (w, rid) in list(bed.msgs):   # a worker that released / lost the row still has its Message object (stale token)
+        if w in free_w and not any(h[0] == rid and h[1] == w for h in held):
+            add(0.5, f"resched:{w}:{rid}:{1 if rng.random() < 0.3 else 0}")
+            add(0.4, f"extend:{w}:{rid}")
+            add(0.2, f"ack:{w}:{rid}")
+    if ids and free_w:   # calls with a hand-made Message by a worker that may never have polled the row (raw, no token)
         rid = rng.choice(ids)
         w = rng.choice(free_w)
         add(0.4, f"ack:{w}:{rid}")
-        add(0.5, f"resched:{w}:{rid}:0")
-        add(0.3, f"extend:{w}:{rid}")
+        add(0.25, f"resched:{w}:{rid}:0")
+        add(0.15, f"extend:{w}:{rid}")
     locked = [r["id"] for r in rows if r["lock"] == "h"]
     if locked:
         add(3.0, f"expire:{rng.choice(locked)}")
